@@ -26,6 +26,7 @@ CONSTANTS
   PostMayFail = FALSE
   StopHooksMayFail = FALSE
   DrainOnClose = FALSE
+  ReportBeforeRelease = FALSE
 INIT TInit
 NEXT TNext
 POSTCONDITION Accepted
